@@ -632,6 +632,52 @@ def compare(ctx, rec, val):
                 return
 
 
+def gc_chain_cases(ctx):
+    """a later member of a chain of text nodes that is the only node object the program still holds survives a garbage
+    collection as a member of the tree: an edit through it lands where the plain tree puts it and no text is lost
+    (the collector may merge *unreferenced* adjacent text nodes; the Coq model has no collector -- this is checked on
+    the implementation only; the general statement is C04's)"""
+    import gc
+    for slot in ("tail", "data"):
+        for held_index in (1, 2):
+            for edit in ("follow", "content", "detach", "precede"):
+                d = Document("<r><x/>a<y/></r>" if slot == "tail" else "<r>a<x/></r>")
+                r = d.root
+                with impl.altered_default_filters():
+                    a = r[1] if slot == "tail" else r[0]
+                    chain = [a] + list(a.add_following_siblings("b", "c"))
+                    held = chain[held_index]
+                del a, chain
+                gc.collect()
+                ctx.count(1, "held-chain-member-after-collection")
+                ctx.nontrivial_case(("gc-chain", slot, held_index, edit))
+                case = {"scenario": "hold only member %d of a %s text chain a,b,c; gc.collect(); %s through it" % (held_index, slot, edit), "classes": []}
+                try:
+                    with impl.altered_default_filters():
+                        if edit == "follow":
+                            held.add_following_siblings("d")
+                            want = "abdc" if held_index == 1 else "abcd"
+                        elif edit == "precede":
+                            held.add_preceding_siblings("d")
+                            want = "adbc" if held_index == 1 else "abdc"
+                        elif edit == "content":
+                            held.content = "Z"
+                            want = "aZc" if held_index == 1 else "abZ"
+                        else:
+                            held.detach()
+                            want = "ac" if held_index == 1 else "ab"
+                        texts = "".join(n.content for n in r.iterate_children() if isinstance(n, TextNode))
+                        attached = any(n is held for n in r.iterate_children())
+                except Exception as e:  # noqa: BLE001
+                    ctx.fail("an edit through a held chain member raises %s after a collection" % type(e).__name__, case, classify)
+                    continue
+                if texts != want or str(r).count(want) != 1:
+                    ctx.fail("text lost or misplaced by an edit through a held chain member after a collection",
+                             dict(case, text=texts, expected=want, serialisation=str(r)), classify)
+                elif attached == (edit == "detach"):
+                    ctx.fail("the held chain member is not where the edit leaves it", case, classify)
+
+
 def check_histories(ctx, recs):
     if not recs:
         return
@@ -669,6 +715,7 @@ def run(ctx, args):
     ctx.build("Props/C01.vo")
     quick = ctx.tier == "quick"
     recs = []
+    gc_chain_cases(ctx)
     with no_gc():
         if args.replay:
             with open(args.replay) as f:
